@@ -13,8 +13,8 @@ import SmoothModel.CSpline
 
 open Scalar Lin
 
-/-- `static_cast<int64_t>(x)`: truncation toward zero.  (For `|x| ≥ 2^63`, NaN, ±inf the C++ cast
-    is undefined; the model keeps the mathematical truncation — see `BSpline.select`.) -/
+/-- `static_cast<int64_t>(x)`: truncation toward zero (the argument is clamped to `[−1, N]` first,
+    see `BSpline.clampQ`; NaN is out of scope). -/
 class ScalarTrunc (α : Type) where
   trunc : α → Int
 
@@ -48,12 +48,11 @@ def t_max (K N : Nat) (t0 dt : α) : α := t0 + nat (N - K) * dt
 /-- `std::clamp(v, lo, hi)` = `(v < lo) ? lo : (hi < v) ? hi : v` -/
 def clamp (v lo hi : α) : α := if v < lo then lo else if hi < v then hi else v
 
-/-- What happens to the quotient `(t − t0)/dt` before the `int64_t` cast.  On the pinned tree:
-    nothing (identity).  A planned `fix:` of the int64 overflow for `(t−t0)/dt ≥ 2^63` clamps the
-    quotient to `[−1, N]` first (`std::clamp(q, -1., double(N))`); when it lands, replace the body
-    by `clamp q (-(nat 1)) (nat N)` — `window_in_bounds`, `outside_range`, `inside` in
-    SmoothProps/C13.lean go through `clampQ_spec` only. -/
-def clampQ (_N : Nat) (q : α) : α := q
+/-- What happens to the quotient `(t − t0)/dt` before the `int64_t` cast: it is clamped to
+    `[−1, N]` (`std::clamp<double>(q, -1., static_cast<double>(m_ctrl_pts.size()))`,
+    bspline_impl.hpp:59-60 — the fix of the int64 overflow for `|(t−t0)/dt| ≥ 2^63`), so the cast
+    never leaves the range of `int64_t`.  (Before the fix this was the identity.) -/
+def clampQ (N : Nat) (q : α) : α := clamp q (-(nat 1)) (nat N)
 
 /-- the raw interval index `static_cast<int64_t>((t − t0) / dt)` -/
 def rawIndex (N : Nat) (t0 dt t : α) : Int := ScalarTrunc.trunc (clampQ N ((t - t0) / dt))
